@@ -17,6 +17,7 @@ EXPLANATION = (
     "C08.TRUNC: origins are printed with an integer conversion (loss < 1) or in full, sizes in full.  Given C01 for "
     "the separation value; the numeric slack budget (< 3 along, < 1 across) is arithmetic on those facts and is not "
     "decided."
+    "  Geometry is derived with and without showBorder (the TikZ bordered box is a separate code path); the caller's options reach the drawing (GEN.OPTS-MERGE)."
 )
 ASSUMPTIONS = ["C01 (same-layer separation) holds", "H - t >= 0 by C08.THICKNESS"]
 
